@@ -2,6 +2,9 @@ import TabulaModel.Util
 import TabulaModel.Model.PageSel
 import TabulaModel.Model.Builder
 import TabulaModel.Model.TextPipe
+import TabulaModel.Model.BuilderAuto
+import TabulaModel.Model.BuilderMem
+import TabulaModel.Model.Dispatch
 /-
 Line protocol of C10.
 
@@ -25,9 +28,21 @@ Line protocol of C10.
   c10.life <f|r>,<ext format>,<present 0|1>,<detected format|unknown|e>,<parseOk 0|1>,<n|x> <op>*
       ops as above plus q w l a o z e s i b (the other terminal operations) and h (IsCharacterLevel)
       -> <-|closed|n<k>|flag|ok|err|bad>/<fd> … | <pages>;<HFCLJ>;<err owns opened> …
+  c10.auto <world of bld or life> <op>* -> <states after op 1> <states after op 2> … | <final states> <owners>
+      states = one letter per extractor: I(dle) H(olding) B(orrowed)   (the life-cycle automaton)
+      owners = ownsReader of every extractor at the end, by the closed form `holdsAtEnd` over its own
+      operations (well-scoped histories on Open bases; `unscoped` / `lent` otherwise)
+  c10.ecls <world of life> <op>*        -> per op: - | ok | bad | builder:<s>:<t> | nofile | open:<how> |
+      pdfonly | count | range:<p>:<n> | nopages | other                (which error, from the chain of calls)
+  c10.rerr <n> <call>*                  -> ok | builder:<s>:<t> | range:<p>:<n> | nopages   (Fragments of a chain on an n-page PDF)
+  c10.mem  <ok|bad>,<n|x> <op>*         -> <res> … | <pages>;<HFCLJ>;<err owns opened> …    (FromHTMLString / failing FromHTMLReader bases)
+  c10.comb <cols:w:h:f.l.b.p.hd.ls.el;…|0> <call>*  -> ro <ColumnCount> <w> <h> | an <7 counters> <Stats.ColumnCount> <w> <h>  | err
+      (per page: ReadingOrder().ColumnCount, page size, the seven counters of Analyze().Stats of a single-page extraction)
+  c10.disp <format> <op letter> <key=val,…> <call>*  -> pdf | unsupported | <key>=<val> | <key>=?
+      (the reader call a terminal operation of a non-PDF extractor ends in; val = what that call returned, as the harness hashed it)
 -/
 namespace Tabula.C10H
-open Tabula Tabula.PageSel Tabula.Builder Tabula.TextPipe
+open Tabula Tabula.PageSel Tabula.Builder Tabula.TextPipe Tabula.BuilderAuto Tabula.BuilderMem Tabula.Dispatch
 
 def parseInts (s : String) : Option (List Int) :=
   if s == "" then some [] else (s.splitOn ".").mapM (·.toInt?)
@@ -257,6 +272,67 @@ def parseCounts (s : String) : Option (List Nat) :=
 def showPairs (sep : String) (l : List (Nat × Nat)) : String :=
   if l.isEmpty then "-" else ",".intercalate (l.map fun (a, b) => s!"{a}{sep}{b}")
 
+
+def showLS : LS → String
+  | .idle => "I" | .holding => "H" | .borrowed => "B"
+
+def showOpenErr : OpenErr → String
+  | .missing => "missing" | .detect => "detect" | .mismatch => "mismatch"
+  | .unsupported => "unsupported" | .parse => "parse"
+
+def showEClass : EClass → String
+  | .builder s t => s!"builder:{s}:{t}"
+  | .noFile => "nofile"
+  | .opening o => "open:" ++ showOpenErr o
+  | .pdfOnly => "pdfonly"
+  | .count => "count"
+  | .range p n => s!"range:{p}:{n}"
+  | .noPages => "nopages"
+  | .other => "other"
+
+/-- the `FileFacts` of a `c10.life` world -/
+def parseLifeFacts (s : String) : Option (FileFacts × Fmt) :=
+  match s.splitOn "," with
+  | [_, x, p, d, o, _] => do
+    let fmt ← parseFmt x
+    let present ← parseBit p
+    let detected ← if d == "e" then some none else (parseFmt d).map some
+    let parseOk ← parseBit o
+    pure (⟨present, detected, parseOk⟩, fmt)
+  | _ => none
+
+/-- per operation: `-` for a configuration method, `bad` for a receiver that does not exist,
+otherwise the class of the error or `ok` -/
+def showErrRun (w : World) (oe : OpenErr) (e0 : Ext) : List (List BCall) → List Op → List String
+  | _, [] => []
+  | L, op :: ops =>
+    let here :=
+      if (L[op.target]?).isNone then "bad"
+      else match op with
+        | .derive _ _ => "-"
+        | _ => match errAnswer w oe e0 L op with
+          | some c => showEClass c
+          | none => "ok"
+    here :: showErrRun w oe e0 (lineage L [op]) ops
+
+/-- one page of a `c10.comb` line: `cols:w:h:f.l.b.p.hd.ls.el` -/
+def parseCombPage (s : String) : Option (ROPage × APage) :=
+  match s.splitOn ":" with
+  | [c, w, h, st] =>
+    match c.toNat?, w.toNat?, h.toNat?, (st.splitOn ".").mapM (·.toNat?) with
+    | some c, some w, some h, some [a, b, d, e, f, g, i] => some (⟨c, w, h⟩, ⟨⟨a, b, d, e, f, g, i⟩, w, h⟩)
+    | _, _, _, _ => none
+  | _ => none
+
+def parseCombPages (s : String) : Option (List (ROPage × APage)) :=
+  if s == "0" then some [] else (s.splitOn ";").mapM parseCombPage
+
+def parseTable (s : String) : List (String × String) :=
+  (s.splitOn ",").filterMap fun kv =>
+    match kv.splitOn "=" with
+    | [k, v] => some (k, v)
+    | _ => none
+
 def handle (op : String) (args : List String) : String :=
   match op, args with
   | "c10.psel", n :: cs =>
@@ -344,6 +420,74 @@ def handle (op : String) (args : List String) : String :=
       " ".intercalate (rs.map fun (r, n) => s!"{showResLife r}/{fd n}") ++ " | " ++
         " ".intercalate (s.exts.map showExt)
     | _, _ => "bad-op"
+  | "c10.auto", w :: ops =>
+    match parseAnyWorld w, ops.mapM parseOp with
+    | some (_, w, _, e0, _), some ops =>
+      let L := lineage [[]] ops
+      -- closed form (file families, well-scoped histories): who holds a reader at the end is
+      -- decided by the last operation called on each extractor
+      let closed :=
+        if !e0.hasFile then "lent"
+        else if !wellScoped 1 ops then "unscoped"
+        else String.join ((List.range L.length).map fun i =>
+          match L[i]? with
+          | some cs => bit (holdsAtEnd w (chainFrom e0 cs) (ownOps i ops))
+          | none => "?")
+      " ".intercalate ((lifeTrace w e0 [[]] [lsOf e0] ops).map fun S => String.join (S.map showLS))
+        ++ " | " ++ String.join ((lifeRun w e0 [[]] [lsOf e0] ops).map showLS) ++ " " ++ closed
+    | _, _ => "bad-op"
+  | "c10.ecls", w :: ops =>
+    match parseAnyWorld w, parseLifeFacts w, ops.mapM parseOp with
+    | some (_, wd, _, e0, _), some (ff, fmt), some ops =>
+      -- both descriptions of "the file opens" must agree
+      if (openErrOf ff fmt).isNone != (openOkOf ff fmt) then "model-paths-disagree:open"
+      else " ".intercalate (showErrRun wd ((openErrOf ff fmt).getD .parse) e0 [[]] ops)
+    | _, _, _ => "bad-op"
+  | "c10.rerr", n :: cs =>
+    match n.toNat?, cs.mapM parseCall with
+    | some n, some calls =>
+      let sh := fun (o : Option EClass) => match o with | some c => showEClass c | none => "ok"
+      both (sh (termErr (pdfWorld n) .parse .fragments (chain calls) (firstInverted calls)))
+        (sh (termErr (pdfWorld n) .parse .fragments (chain calls) (chainErr none calls)))
+    | _, _ => "bad-op"
+  | "c10.mem", w :: ops =>
+    match w.splitOn ",", ops.mapM parseOp with
+    | [b, n], some ops =>
+      match (if b == "ok" then some htmlBase else if b == "bad" then some htmlBaseErr else none),
+          (if n == "x" then some none else n.toNat?.map some) with
+      | some e0, some pc =>
+        let wd : World := ⟨false, pc⟩
+        let (X, rs) := mrun wd [e0] ops
+        both (" ".intercalate (rs.map showResLife)) (" ".intercalate ((mStaticRun wd e0 [[]] [e0.opened] ops).map showResLife))
+          ++ " | " ++ " ".intercalate (X.map showExt)
+      | _, _ => "bad-op"
+    | _, _ => "bad-op"
+  | "c10.comb", pages :: cs =>
+    match parseCombPages pages with
+    | some ps =>
+      let ro := fun (sel : List Int) => extractReadingOrder (fun k => (lookup ps k).map (·.1)) sel ps.length
+      let an := fun (sel : List Int) => extractAnalysisSummary (fun k => (lookup ps k).map (·.2)) sel ps.length
+      let showStats := fun (t : AStats) => s!"{t.frag}.{t.line}.{t.block}.{t.para}.{t.head}.{t.list}.{t.elem}"
+      match cs.mapM parseCall with
+      | none => "bad-op"
+      | some calls =>
+        let e := chain calls
+        if e.err then "err"
+        else match ro e.opts.pages, an e.opts.pages with
+          | .ok r, .ok a => s!"ro {r.cols} {r.w} {r.h} | an {showStats a.stats} {a.colCount} {a.w} {a.h}"
+          | _, _ => "err"
+    | none => "bad-op"
+  | "c10.disp", f :: k :: tbl :: cs =>
+    match parseFmt f, parseTerm k, cs.mapM parseCall with
+    | some f, some k, some calls =>
+      match route k (chainFrom { format := f } calls) with
+      | .pdfPipeline => "pdf"
+      | .unsupported => "unsupported"
+      | .reader c =>
+        match (parseTable tbl).lookup c.key with
+        | some v => c.key ++ "=" ++ v
+        | none => c.key ++ "=?"
+    | _, _, _ => "bad-op"
   | _, _ => "bad-op"
 
 end Tabula.C10H
